@@ -391,6 +391,16 @@ func (ex *Exec) specIdent(sc *specCtx, e *ast.Ident) (Val, bool) {
 		}
 		return Val{t, sv.typ}, true
 	}
+	// a variable that was renamed since the contract was written (same position and type)
+	if len(ex.renamed[name]) > 0 {
+		pos := sc.pos
+		if sc.root().lenient && sc.st != nil && sc.st.retPos != token.NoPos {
+			pos = sc.st.retPos
+		}
+		if v := ex.renamedVar(name, pos); v != nil {
+			return ex.specLoadVar(sc, v)
+		}
+	}
 	// program scope
 	if sc.pos != token.NoPos {
 		if scope := ex.pkg.Types.Scope().Innermost(sc.pos); scope != nil {
